@@ -34,6 +34,7 @@ import (
 	"errors"
 	"fmt"
 	"math"
+	"os"
 	"sort"
 	"strings"
 	"sync"
@@ -43,15 +44,20 @@ import (
 	"time"
 
 	ds "github.com/ipfs/go-datastore"
+	logging "github.com/ipfs/go-log/v2"
 	"github.com/ipfs/go-datastore/namespace"
 	dssync "github.com/ipfs/go-datastore/sync"
 	kb "github.com/libp2p/go-libp2p-kbucket"
 	"github.com/libp2p/go-libp2p/core/peer"
 	ma "github.com/multiformats/go-multiaddr"
+	"go.uber.org/zap"
+	"go.uber.org/zap/zapcore"
+	"github.com/ipfs/go-libdht/kad/key/bitstr"
 	mh "github.com/multiformats/go-multihash"
 
 	"github.com/libp2p/go-libp2p-kad-dht/internal/verif/vh"
 	pb "github.com/libp2p/go-libp2p-kad-dht/pb"
+	"github.com/libp2p/go-libp2p-kad-dht/provider/internal/keyspace"
 	"github.com/libp2p/go-libp2p-kad-dht/provider/internal/queue"
 	"github.com/libp2p/go-libp2p-kad-dht/provider/keystore"
 )
@@ -66,6 +72,7 @@ const (
 	vC17BatchCap     = 5 * time.Minute // measured batch time never widens the slack by more
 	vC17DeadFailLat   = 5 * time.Second        // an unreachable recipient fails after a dial timeout
 	vC17OutageFailLat = 200 * time.Millisecond // lookups and RPCs fail quickly while the network is down
+	vC17MaxClustered = 600 // largest clustered swarm (70 % under one prefix) generated
 	vC17PoolPeers    = 12000
 	vC17PoolKeys     = 6000
 )
@@ -231,6 +238,8 @@ type vC17Sim struct {
 	routerLat, sendLat atomic.Int64 // max injected latency (ns)
 
 	provideClause, provideSig string // how a missed hand-over obligation is reported
+	sigOf                     func(k int32) string // optional refinement of provideSig per key
+	noteOf                    func(k int32) string // optional annotation of a key in witnesses
 
 	mu        sync.Mutex
 	epochs    []vC17Epoch
@@ -247,6 +256,7 @@ type vC17Sim struct {
 	badPay    []string
 	unrep     []string
 	apiErr    []string
+	capHits   []vC17CapHit
 
 	outage   atomic.Bool
 	closing  atomic.Bool
@@ -294,6 +304,7 @@ func vC17NewSim(c *vh.Case, r, deadPct int, routerLat, sendLat time.Duration, me
 	s.sendLat.Store(int64(sendLat))
 	s.epochs = []vC17Epoch{{start: 0, members: append([]int32(nil), members...)}}
 	s.setAddrs(0)
+	vC17CurSim.Store(s)
 	return s
 }
 
@@ -569,6 +580,21 @@ func (s *vC17Sim) scheduleSize(p *SweepingProvider) int {
 	return p.schedule.Size()
 }
 
+// schedulePrefixes renders the scheduled region prefixes (witness only).
+func (s *vC17Sim) schedulePrefixes(p *SweepingProvider) string {
+	p.scheduleLk.Lock()
+	defer p.scheduleLk.Unlock()
+	var out []string
+	for _, k := range keyspace.AllKeys(p.schedule, p.order) {
+		out = append(out, string(k))
+	}
+	sort.Strings(out)
+	if len(out) > 40 {
+		out = append(out[:40], "…")
+	}
+	return strings.Join(out, " ")
+}
+
 // ---- oracle ---------------------------------------------------------------------------------
 
 func (s *vC17Sim) epochEnd(e int) time.Duration {
@@ -709,7 +735,34 @@ func (s *vC17Sim) batchTime() time.Duration {
 	return s.busyMax
 }
 
+// capHit tells whether an exploration gave up at the lookup cap inside [lo,hi]; the second result
+// describes it (and whether the key lies in a part of the keyspace that was left unexplored).
+func (s *vC17Sim) capHit(k int32, lo, hi time.Duration) (bool, string) {
+	for _, h := range s.capHits {
+		if h.t >= lo && h.t <= hi {
+			under := false
+			bits := vC17Bits(&s.pool.keys[k].kad, 64)
+			for _, g := range h.gaps {
+				if strings.HasPrefix(bits, g) {
+					under = true
+				}
+			}
+			return true, fmt.Sprintf("at +%v an exploration stopped at the cap of %d lookups leaving %v unexplored (key inside: %v)", h.t.Round(time.Second), maxExplorationPrefixSearches, h.gaps, under)
+		}
+	}
+	return false, ""
+}
+
+// allocSig chooses the signature of "advertised, but not to the r nearest".
+func (s *vC17Sim) allocSig(v *vC17Verdict, k int32, lo, hi time.Duration) (*int, string, string) {
+	if hit, what := s.capHit(k, lo, hi); hit {
+		return &v.capFail, "explore/lookup-cap", "; " + what
+	}
+	return &v.allocFail, "alloc/not-r-nearest", ""
+}
+
 type vC17Verdict struct {
+	capFail int
 	provideJudged, windowsJudged, stopJudged, catchupJudged int
 	allocFail, gapFail, provFail, stopFail, catchFail       int
 }
@@ -797,9 +850,17 @@ func (s *vC17Sim) evaluate(end time.Duration, windows bool) vC17Verdict {
 				continue
 			}
 			if any {
-				report(&v.allocFail, s.provideClause, "alloc/not-r-nearest", "handed over at +%v and advertised, but not to all healthy peers among its r nearest: %s", t.Round(time.Millisecond), s.describe(k, t, t+vC17ProvideBound))
+				cnt, sig, extra := s.allocSig(&v, k, t, t+vC17ProvideBound)
+				report(cnt, s.provideClause, sig, "handed over at +%v and advertised, but not to all healthy peers among its r nearest: %s%s", t.Round(time.Millisecond), s.describe(k, t, t+vC17ProvideBound), extra)
 			} else {
-				report(&v.provFail, s.provideClause, s.provideSig, "handed over at +%v, no ADD_PROVIDER within %v: %s", t.Round(time.Millisecond), vC17ProvideBound, s.describe(k, t, t+vC17ProvideBound))
+				sig, note := s.provideSig, ""
+				if s.sigOf != nil {
+					sig = s.sigOf(k)
+				}
+				if s.noteOf != nil {
+					note = " (" + s.noteOf(k) + ")"
+				}
+				report(&v.provFail, s.provideClause, sig, "handed over at +%v%s, no ADD_PROVIDER within %v: %s", t.Round(time.Millisecond), note, vC17ProvideBound, s.describe(k, t, t+vC17ProvideBound))
 			}
 		}
 		for _, sg := range m.segs {
@@ -834,7 +895,8 @@ func (s *vC17Sim) evaluate(end time.Duration, windows bool) vC17Verdict {
 					v.catchupJudged++
 					if ok, any := s.complete(k, a, a+vC17CatchUpBound); !ok {
 						if any {
-							report(&v.allocFail, "catch-up", "alloc/not-r-nearest", "re-advertised after the outage, but not to all healthy peers among its r nearest: %s", s.describe(k, a, a+vC17CatchUpBound))
+							cnt, sig, extra := s.allocSig(&v, k, a, a+vC17CatchUpBound)
+							report(cnt, "catch-up", sig, "re-advertised after the outage, but not to all healthy peers among its r nearest: %s%s", s.describe(k, a, a+vC17CatchUpBound), extra)
 						} else {
 							report(&v.catchFail, "catch-up", "outage/not-caught-up", "back online at +%v, not re-advertised within %v: %s", a.Round(time.Second), vC17CatchUpBound, s.describe(k, a, a+vC17CatchUpBound))
 						}
@@ -860,7 +922,8 @@ func (s *vC17Sim) evaluate(end time.Duration, windows bool) vC17Verdict {
 					// began before the window)? yes: wrong recipients; no: a gap in the schedule
 					_, any := s.complete(k, x+slack, x+W)
 					if any {
-						report(&v.allocFail, "reprovide-window", "alloc/not-r-nearest", "kept since +%v: advertised inside the window, but never to all healthy peers among its r nearest: %s", sg.s.Round(time.Second), s.describe(k, x, x+W))
+						cnt, sig, extra := s.allocSig(&v, k, x, x+W)
+						report(cnt, "reprovide-window", sig, "kept since +%v: advertised inside the window, but never to all healthy peers among its r nearest: %s%s", sg.s.Round(time.Second), s.describe(k, x, x+W), extra)
 					} else {
 						report(&v.gapFail, "reprovide-window", "reprovide/gap-exceeds-bound", "kept since +%v: no ADD_PROVIDER at all during %v (= interval %v + max delay %v + slack %v): %s", sg.s.Round(time.Second), W, vC17Interval, vC17MaxDelay, slack, s.describe(k, x, x+W))
 					}
@@ -878,6 +941,8 @@ func (s *vC17Sim) evaluate(end time.Duration, windows bool) vC17Verdict {
 	c.Obs("windows_judged", v.windowsJudged)
 	c.Obs("keys_missing_some_r_nearest", v.allocFail)
 	c.Obs("keys_with_gap", v.gapFail)
+	c.Obs("keys_misallocated_after_lookup_cap", v.capFail)
+	c.Obs("explorations_stopped_at_lookup_cap", len(s.capHits))
 	if v.allocFail > 3 || v.gapFail > 3 || v.provFail > 3 || v.stopFail > 3 || v.catchFail > 3 {
 		c.Logf("violations beyond the first three per kind are only counted: alloc=%d gap=%d provide=%d stop=%d catch-up=%d", v.allocFail, v.gapFail, v.provFail, v.stopFail, v.catchFail)
 	}
@@ -972,6 +1037,12 @@ func vC17RandParams(c *vh.Case, minN, maxN, maxKeys int) vC17Params {
 		p.deadPct = 30
 	}
 	p.clusteredSwarm = c.R.Intn(4) == 0
+	if p.clusteredSwarm && p.N > vC17MaxClustered {
+		// a region is never split while one of its halves holds fewer than r peers, so most of a
+		// clustered swarm ends up in one region; keep it small enough to be explored within the
+		// provider's cap of 64 lookups per region (see explore/lookup-cap)
+		p.N = vC17MaxClustered
+	}
 	p.singlePrefixKeys = c.R.Intn(4) == 0
 	p.workers = vC17WorkerConfigs[c.R.Intn(len(vC17WorkerConfigs))]
 	if c.R.Intn(3) == 0 {
@@ -984,7 +1055,75 @@ func (s *vC17Sim) describeCase(p vC17Params) {
 	s.c.Set("params", p.String())
 }
 
+// ---- observation of the provider's own warnings -----------------------------------------------
+//
+// closestPeersToPrefix gives up after maxExplorationPrefixSearches (64) lookups and carries on with
+// the peers found so far (it only logs a warning). Keys whose nearest peers lie in the unexplored
+// part are then allocated to the nearest *discovered* peers. The monitor listens to that warning so
+// that such a miss gets its own signature (explore/lookup-cap) instead of alloc/not-r-nearest.
+
+type vC17CapHit struct {
+	t    time.Duration
+	gaps []string
+}
+
+var (
+	vC17LogOnce sync.Once
+	vC17CurSim  atomic.Pointer[vC17Sim]
+)
+
+type vC17LogCore struct{}
+
+func (vC17LogCore) Enabled(l zapcore.Level) bool        { return l >= zapcore.WarnLevel }
+func (k vC17LogCore) With([]zapcore.Field) zapcore.Core { return k }
+func (k vC17LogCore) Sync() error                       { return nil }
+func (k vC17LogCore) Check(e zapcore.Entry, ce *zapcore.CheckedEntry) *zapcore.CheckedEntry {
+	if k.Enabled(e.Level) && strings.Contains(e.Message, "maxPrefixSearches") {
+		return ce.AddCore(e, k)
+	}
+	return ce
+}
+
+func (k vC17LogCore) Write(e zapcore.Entry, fields []zapcore.Field) error {
+	s := vC17CurSim.Load()
+	if s == nil {
+		return nil
+	}
+	hit := vC17CapHit{t: s.now()}
+	for _, f := range fields {
+		if gs, ok := f.Interface.([]bitstr.Key); ok && f.Key == "gaps" {
+			for _, g := range gs {
+				hit.gaps = append(hit.gaps, string(g))
+			}
+		}
+	}
+	s.mu.Lock()
+	s.capHits = append(s.capHits, hit)
+	s.mu.Unlock()
+	return nil
+}
+
+func vC17SetupLog() {
+	vC17LogOnce.Do(func() {
+		lvl := zapcore.ErrorLevel
+		if env := os.Getenv("VERIF_C17_LOG"); env != "" { // debugging aid: provider log level in the batch log
+			if l, err := zapcore.ParseLevel(env); err == nil {
+				lvl = l
+			}
+		}
+		out := zapcore.NewCore(zapcore.NewConsoleEncoder(zap.NewDevelopmentEncoderConfig()), zapcore.Lock(os.Stderr), lvl)
+		logging.SetPrimaryCore(zapcore.NewTee(out, vC17LogCore{}))
+		logging.Logger(DefaultLoggerName)
+		minLvl := "warn"
+		if lvl < zapcore.WarnLevel {
+			minLvl = lvl.String()
+		}
+		logging.SetLogLevel(DefaultLoggerName, minLvl)
+	})
+}
+
 func vC17SelfCheck(c *vh.Case) bool {
+	vC17SetupLog()
 	p := vC17Pool()
 	if !p.selfOK {
 		c.FailSig("selfcheck", "harness/metric-selfcheck", "monitor's XOR ordering disagrees with go-libp2p-kbucket: %s", p.selfMsg)
@@ -1071,7 +1210,7 @@ func TestVerif_C17_provide(t *testing.T) {
 
 func TestVerif_C17_reprovide(t *testing.T) {
 	vh.Run(t, vh.Spec{Prop: "C17", Unit: "reprovide", Quick: 28, Thorough: 700, CostMs: 1500,
-		Rule: "PRNG scenario over 3.6-4.6 virtual hours (interval 1 h, max delay 5 min): keys started in 1-3 calls during the first minutes, then by class (index mod 7): 0/1 steady small provider (800-2000 peers, 30-120 keys: <= 2 keys per region), 2 swarm x4 at a rest point, 3 swarm /4, 4 x4 then /4, 5 many keys with StopProviding / restart of a subset, 6 random churn (3 redraws of the swarm size among 3..2000); r in {1,3,5,20} vs router K=20, dead recipients, worker configurations, latencies as in unit provide; window oracle on every kept key; non-trivial = >= 3 cycles observed and >= 1 full window judged; distinct by parameter tuple + script",
+		Rule: "PRNG scenario over 3.6-4.6 virtual hours (interval 1 h, max delay 5 min): keys started in 1-3 calls during the first minutes, then by class (index mod 7): 0/1 steady small provider (800-2000 peers, 30-120 keys: <= 2 keys per region), 2 swarm x4 at a rest point, 3 swarm /4, 4 x4 then /4, 5 many keys with StopProviding / restart of a subset, 6 random churn (3 redraws of the swarm size within [n/4, 4n], <= 2000); clustered swarms stay <= 600 peers (lookup cap of the exploration); r in {1,3,5,20} vs router K=20, dead recipients, worker configurations, latencies as in unit provide; window oracle on every kept key; non-trivial = >= 3 cycles observed and >= 1 full window judged; distinct by parameter tuple + script",
 		Clauses: []string{"selfcheck", "provide-bound", "reprovide-window", "stop", "payload", "recipient-reported"}},
 		func(c *vh.Case) {
 			if !vC17SelfCheck(c) {
@@ -1098,6 +1237,9 @@ func TestVerif_C17_reprovide(t *testing.T) {
 			if class >= 2 && class != 5 && c.R.Intn(6) == 0 {
 				p.r = 20
 			}
+			if p.clusteredSwarm && (class == 2 || class == 4) && p.N > vC17MaxClustered/4 {
+				p.N = vC17MaxClustered / 4 // the swarm will grow x4
+			}
 			type ev struct {
 				at   time.Duration
 				kind string
@@ -1120,7 +1262,7 @@ func TestVerif_C17_reprovide(t *testing.T) {
 				script = append(script, ev{h(20 + c.R.Intn(100)), "stop", 3}, ev{h(125 + c.R.Intn(30)), "restart-keys", 0}, ev{h(160 + c.R.Intn(20)), "stop", 2})
 			case 6:
 				for i := 0; i < 3; i++ {
-					script = append(script, ev{h(35+i*65) + time.Duration(c.R.Intn(1200))*time.Second, "redraw", vC17LogUniform(c, 3, 2000)})
+					script = append(script, ev{h(35+i*65) + time.Duration(c.R.Intn(1200))*time.Second, "redraw", c.R.Intn(1 << 20)})
 				}
 			}
 			if c.R.Intn(3) == 0 {
@@ -1186,7 +1328,19 @@ func TestVerif_C17_reprovide(t *testing.T) {
 						case "shrink":
 							n = (n + e.arg - 1) / e.arg
 						default:
-							n = e.arg
+							// new size log-uniform within [n/4, 4n] (the growth a region split absorbs within
+							// the provider's lookup cap), at most 2000, clustered swarms at most vC17MaxClustered
+							lo, hi := (n+3)/4, 4*n
+							if lo < 1 {
+								lo = 1
+							}
+							if hi > 2000 {
+								hi = 2000
+							}
+							if p.clusteredSwarm && hi > vC17MaxClustered {
+								hi = vC17MaxClustered
+							}
+							n = int(float64(lo)*math.Pow(float64(hi)/float64(lo), float64(e.arg)/float64(1<<20)) + 0.5)
 						}
 						var next []int32
 						if n >= len(cur) {
@@ -1202,7 +1356,7 @@ func TestVerif_C17_reprovide(t *testing.T) {
 						}
 						before := sim.scheduleSize(prov)
 						sim.churn(next)
-						c.Logf("+%v swarm %d -> %d peers (schedule holds %d regions)", sim.now().Round(time.Second), len(cur), len(next), before)
+						c.Logf("+%v swarm %d -> %d peers (schedule holds %d regions: %s)", sim.now().Round(time.Second), len(cur), len(next), before, sim.schedulePrefixes(prov))
 						c.Obs("swarm_changes", 1)
 					case "stop":
 						var part []int32
@@ -1370,6 +1524,7 @@ func TestVerif_C17_restart(t *testing.T) {
 			c.Set("first_instance", fmt.Sprintf("workers 1/0/0 conns=%d, Close %v after hand-over, %d StartProviding keys", w1.conns, closeAfter, nStart))
 			var sim *vC17Sim
 			var queued []int32
+			isOnce := map[int32]bool{}
 			var tRestart, end time.Duration
 			c.Bubble(t, 6*time.Hour, "hang", func(t *testing.T) {
 				sim = vC17NewSim(c, p.r, p.deadPct, p.routerLat, p.sendLat, vC17PickPeers(c, p.N, p.clusteredSwarm, map[int32]bool{}))
@@ -1394,6 +1549,9 @@ func TestVerif_C17_restart(t *testing.T) {
 				}
 				keys := vC17PickKeys(c, p.nKeys+nStart, false)
 				onceKeys, startKeys := keys[:p.nKeys], keys[p.nKeys:]
+				for _, k := range onceKeys {
+					isOnce[k] = true
+				}
 				if len(startKeys) > 0 {
 					prov1.StartProviding(true, sim.mhs(startKeys)...)
 				}
@@ -1452,6 +1610,18 @@ func TestVerif_C17_restart(t *testing.T) {
 				sim.km(k).provides = []time.Duration{tRestart}
 			}
 			sim.provideClause, sim.provideSig = "restart-resume", "restart/not-resumed"
+			sim.noteOf = func(k int32) string {
+				if isOnce[k] {
+					return "queued by ProvideOnce in the first instance, not in the keystore"
+				}
+				return "queued by StartProviding in the first instance, in the keystore"
+			}
+			sim.sigOf = func(k int32) string {
+				if isOnce[k] {
+					return "restart/not-resumed/provide-once-key"
+				}
+				return "restart/not-resumed/kept-key"
+			}
 			sim.mu.Unlock()
 			c.Obs("keys_queued_at_close", len(queued))
 			sim.evaluate(end, false)
